@@ -553,7 +553,7 @@ pub fn run_c09(ctx: &Ctx) -> i32 {
     stats.merge(par_cases(ctx, "long", ctx.tier.pick(6_000, 120_000), Duration::from_secs(ctx.tier.pick(40, 600)), |i, rng, st| {
         let n = rng.range(6, 40);
         let names = ["a", "b", "c", "d", "e", "f", "g", "h", "alpha", "beta", "getInterfaceVersion", "getInterfaceHash", "getTransactionName", "asBinder", "toString", "TRUE", "Interface", "A", "B", "Alpha", "ALPHA", "Beta", "tostring"];
-        let codes = ["0", "1", "01", "001", "7", "007", "4294967295", "4294967294", "16777215", "16777214", "16777213", "016777214", "10", "010", "2147483648"];
+        let codes = ["0", "1", "01", "001", "7", "007", "4294967295", "4294967294", "16777215", "16777214", "16777213", "016777214", "10", "010", "2147483648", "4294967296", "99999999999"];
         let style = rng.below(3); // 0: mixed, 1: all coded, 2: none coded
         let mut s = String::from("package t; interface I { ");
         for k in 0..n {
@@ -599,7 +599,7 @@ pub fn run_c09(ctx: &Ctx) -> i32 {
         stats,
         Meta {
             rule: "stage sequences: exhaustive method sequences; stage long: random sequences of 6-40 methods with large and zero-padded codes; the multiset of duplicated-name / duplicated-id / mixed diagnostics with their related ranges is compared with an independent single pass; non-trivial if the interface has at least one method".into(),
-            assumptions: vec!["codes are compared as u32 (007 = 7); overflowing codes are not generated here (C01/C04 own them)".into()],
+            assumptions: vec!["codes are compared as u32 (007 = 7); a code that does not fit u32 is rejected by the parse stage and the method then counts as one without a code".into()],
             exhaustive: false,
             extra,
             min_nontrivial: 50,
